@@ -32,6 +32,13 @@ def dumpwrites(repo, allow, dirs=None):
     return harness("dumpwrites", [req])[0]
 
 
+def _lhs_suffix(stmt):
+    """`traced.StackTrace = out.String()` -> `.StackTrace`: what is written, without the name of the local it is written through"""
+    lhs = re.split(r"\s*(?::=|[-+*/|&^]?=)\s*", stmt, 1)[0].strip()
+    m = re.match(r"^[A-Za-z_]\w*((?:\.[A-Za-z_]\w*|\[[^\]]*\])+)$", lhs)
+    return m.group(1) if m else ""
+
+
 def classify_sites(sites, allow):
     used = set()
     out = []
@@ -41,7 +48,8 @@ def classify_sites(sites, allow):
         if cls is None:
             cls = "Shared"
             for k, a in enumerate(allow["allow"]):
-                if a["func"] == s["func"] and a["stmt"] == s["stmt"]:
+                # same function and same statement; or, after a renaming of locals, same function and same written field / element
+                if a["func"] == s["func"] and (a["stmt"] == s["stmt"] or (_lhs_suffix(a["stmt"]) != "" and _lhs_suffix(a["stmt"]) == _lhs_suffix(s["stmt"]))):
                     cls, reason = "Allowed", a["reason"]
                     used.add(k)
                     break
